@@ -8,6 +8,7 @@ import (
 	"path/filepath"
 	"strconv"
 	"strings"
+	"sync"
 	"time"
 )
 
@@ -15,13 +16,28 @@ import (
 // with N seeds and once with 4N seeds (large spooled bodies, failures, redirects, many hosts); at
 // quiescence each run reports: reactor state-table size, tokens in use, nodes still holding a body
 // after post-processing, files in the WARC temp directory, per-host limiter table size and bound,
-// open file descriptors and goroutines.
+// open file descriptors (total, and by what they point to) and goroutines.
 //
-// Input: as driver "pipe" (seeds = N)
+// Input: as driver "pipe" (seeds = N), plus
+//   log=1 | logrot=<Go duration> [loglvl=debug]  file logging through the real log.Start(), with --log-file-rotation
+//   nogc=1                                       the collector stays off (below 1 GiB of heap): no finalizer closes a descriptor
+//                                                whose Close() was lost
 
 type fpObs struct {
 	ok                                                           bool
 	table, tokens, bodies, temps, buckets, maxb, fds, goroutines int
+	kinds                                                        map[string]int // the descriptors by what they point to (log, warc, temp, db, sock, pipe, other)
+	quietMs                                                      int64          // when the run was quiescent (informative only: never compared)
+	heapMB, numGC                                                int            // heap in use and completed collections at that moment (informative only)
+}
+
+// kindsLine: "log=1 sock=4 warc=1 ..." in a fixed order
+func kindsLine(k map[string]int) string {
+	var parts []string
+	for _, name := range []string{"log", "warc", "temp", "db", "sock", "pipe", "other"} {
+		parts = append(parts, fmt.Sprintf("%s=%d", name, k[name]))
+	}
+	return strings.Join(parts, " ")
 }
 
 func fpRun(input string, mult int) fpObs {
@@ -42,6 +58,14 @@ func fpRun(input string, mult int) fpObs {
 	}
 	sp.Expect = len(sp.LQRows)
 	sp.Footprint = true
+	// log=1: file logging as the crawler does by default (the real log.Start() inside controler.Start()), into the job's scratch
+	// directory; logrot=<duration>: --log-file-rotation, a period short enough that the 4N run sees many more rotations than the
+	// N run (a rotation closes the file it replaces: the descriptor count does not depend on how many rotations went by)
+	kv := parseKV(input)
+	if kv["log"] == "1" || kv["logrot"] != "" {
+		sp.LogFile, sp.LogRotation, sp.LogLevel = true, kv["logrot"], kv["loglvl"]
+	}
+	sp.NoGC = kv["nogc"] == "1"
 	sp.TimeoutMs = 300000 // with the rate limiter on, 403/429 penalties (5 s doubling to 30 s) stretch a run; a loaded machine more so
 	res, _, status := runChild(sp, 400*time.Second)
 	if res == nil || status != "" || !res.StopReturned || res.TimedOut {
@@ -54,7 +78,7 @@ func fpRun(input string, mult int) fpObs {
 		// runs are judged by the other monitors (quiescence, reactor idle, no body or temp file left, limiter table)
 		res.FDs, res.Goroutines = 0, 0
 	}
-	return fpObs{true, res.StateAtQuiet, res.Tokens, res.OpenBodies, res.TempFiles, res.Buckets, res.MaxBuckets, res.FDs, res.Goroutines}
+	return fpObs{true, res.StateAtQuiet, res.Tokens, res.OpenBodies, res.TempFiles, res.Buckets, res.MaxBuckets, res.FDs, res.Goroutines, res.FDKinds, res.QuiescentAtMs, res.HeapMB, res.NumGC}
 }
 
 func (o fpObs) coq() string {
@@ -64,8 +88,21 @@ func (o fpObs) coq() string {
 		}
 		return fmt.Sprintf("%d%%Z", v)
 	}
-	return fmt.Sprintf("(FO %s %s %s %s %s %s %s %s %s)", coqBool(o.ok), z(o.table), z(o.tokens), z(o.bodies), z(o.temps), z(o.buckets), z(o.maxb), z(o.fds), z(o.goroutines))
+	return fmt.Sprintf("(FO %s %s %s %s %s %s %s %s %s %s %s)", coqBool(o.ok), z(o.table), z(o.tokens), z(o.bodies), z(o.temps), z(o.buckets), z(o.maxb), z(o.fds), z(o.goroutines), z(o.files()), z(o.kinds["log"]))
 }
+
+// files: the descriptors that are neither sockets nor pipes
+func (o fpObs) files() int {
+	n := 0
+	for k, v := range o.kinds {
+		if k != "sock" && k != "pipe" {
+			n += v
+		}
+	}
+	return n
+}
+
+var fpNoteMu sync.Mutex
 
 func execFootprint(input string) Result {
 	a := fpRun(input, 1)
@@ -77,9 +114,48 @@ func execFootprint(input string) Result {
 	w, _ := strconv.Atoi(kv["w"])
 	mca, _ := strconv.Atoi(kv["mca"])
 	n, _ := strconv.Atoi(kv["seeds"])
-	term := fmt.Sprintf("FC %d %d %d %s %s %s", w, mca, n, coqBool(kv["rl"] == "1"), a.coq(), b.coq())
-	return Result{Term: term, Tags: []string{fmt.Sprintf("n:%d", n), fmt.Sprintf("w:%d", w), fmt.Sprintf("rl:%s", kv["rl"]), fmt.Sprintf("ok:%v", a.ok && b.ok),
-		fmt.Sprintf("buckets4n:%d/%d", b.buckets, b.maxb), "mode:" + kv["mode"]}, Nontrivial: a.ok && b.ok && n >= 2}
+	logOn := kv["log"] == "1" || kv["logrot"] != ""
+	term := fmt.Sprintf("FC %d %d %d %s %s %s %s", w, mca, n, coqBool(kv["rl"] == "1"), coqBool(logOn), a.coq(), b.coq())
+	tags := []string{fmt.Sprintf("n:%d", n), fmt.Sprintf("w:%d", w), fmt.Sprintf("rl:%s", kv["rl"]), fmt.Sprintf("ok:%v", a.ok && b.ok),
+		fmt.Sprintf("buckets4n:%d/%d", b.buckets, b.maxb), "mode:" + kv["mode"]}
+	switch {
+	case kv["logrot"] != "":
+		tags = append(tags, "logfile:rotated")
+	case logOn:
+		tags = append(tags, "logfile:on")
+	default:
+		tags = append(tags, "logfile:off")
+	}
+	if kv["nogc"] == "1" {
+		tags = append(tags, fmt.Sprintf("nogc:collections4n=%d", min(b.numGC, 1))) // 0: no finalizer can have closed anything in the 4N run
+	}
+	// what the descriptors point to: a count that differs between the runs (or a log directory holding more than one) is named
+	if a.ok && b.ok {
+		odd := false
+		for _, k := range []string{"log", "warc", "temp", "db", "sock", "pipe", "other"} {
+			slack := 1 // a reading may fall between the close and the open of a log rotation
+			if k == "sock" || k == "pipe" { // idle keep-alive connections come and go; the harness's own proxy lives in the same process
+				slack = 3
+				if kv["proxy"] == "1" {
+					continue
+				}
+			}
+			if b.kinds[k] > a.kinds[k]+slack {
+				tags = append(tags, "fdgrow:"+k)
+				odd = true
+			}
+		}
+		if a.kinds["log"] > 1 || b.kinds["log"] > 1 {
+			tags = append(tags, "logfds>1")
+			odd = true
+		}
+		if odd || os.Getenv("ZV_FP_DEBUG") != "" {
+			fpNoteMu.Lock()
+			defer fpNoteMu.Unlock()
+			note(fmt.Sprintf("footprint [%s] descriptors by kind: N seeds {%s} after %d ms, 4N seeds {%s} after %d ms", input, kindsLine(a.kinds), a.quietMs, kindsLine(b.kinds), b.quietMs))
+		}
+	}
+	return Result{Term: term, Tags: tags, Nontrivial: a.ok && b.ok && n >= 2}
 }
 
 func genFootprint(r *Rng, i int, tier string) string {
@@ -99,6 +175,26 @@ func genFootprint(r *Rng, i int, tier string) string {
 	}
 	if r.Chance(25) {
 		s += " inc=A" // --include-host: every third seed (and every asset elsewhere) is out of scope and must leave no trace either
+	}
+	// file logging (the crawler's default; every other run of the harness switches it off) with --log-file-rotation: the log is
+	// re-opened every few ms, and the 4N run (every seed held up ~100 ms at its last step, as by a slow queue) sees many more
+	// rotations than the N run - the number of descriptors may not depend on that
+	light := mode == "" || mode == "adversarial" // small bodies: the heap stays far below the limit with the collector off
+	if r.Chance(50) {
+		if r.Chance(85) {
+			s += " logrot=" + []string{"10ms", "10ms", "20ms", "35ms"}[r.Intn(4)] + fmt.Sprintf(" slow=fin.finished:%d", 80+20*r.Intn(4))
+		} else {
+			s += " log=1"
+		}
+		if r.Chance(50) {
+			s += " loglvl=debug"
+		}
+		if r.Chance(70) {
+			s += " nogc=1"
+		}
+	} else if light && r.Chance(40) {
+		// collector off: a lost Close() is then not made good by the finalizer of os.File / net.Conn
+		s += " nogc=1"
 	}
 	return strings.TrimSpace(s)
 }
